@@ -512,6 +512,7 @@ func spkiCorpus(pts []mc.PVal, thorough bool) [][]byte {
 	}
 	// payloads: SEC 1 corpus in the BIT STRING (valid and invalid encodings, identity, wrong lengths)
 	var payloads [][]byte
+	payloads = append(payloads, mc.SEC1Extras()...) // limb near misses of the curve equation, aliases over the whole non-canonical window
 	for _, p := range pts {
 		if p.P.Inf {
 			payloads = append(payloads, []byte{0})
